@@ -282,25 +282,32 @@ def setParents (s : Store) (parent : Nat) : Nat → Option Nat → Res Store
     let s1 ← s.modify c fun x => { x with parent := some parent }
     setParents s1 parent f cn.next
 
-/-- the loop of `mpt_list_clone(src)`; loop state: `first`, `last` -/
+/-- `if (!last) last = first = cpy; else last = mpt_gnode_after(last, cpy);` -/
+def linkLast (s : Store) (last : Option Nat) (cpy : Nat) : Res Store :=
+  match last with
+  | none => .ok s
+  | some l => gnodeAfter s (some l) cpy
+
+/-- `cpy->children = kids; for (c = kids; c; c = c->next) c->parent = cpy;` (nothing to do without kids) -/
+def attachKids (s : Store) (cpy : Nat) (kids : Option Nat) : Res Store :=
+  match kids with
+  | none => .ok s
+  | some c => do
+    let s' ← s.modify cpy fun x => { x with children := some c }
+    setParents s' cpy s'.fuel (some c)
+
+/-- the loop of `mpt_list_clone(src)`; loop state: `first`, `last`.  The recursive call for the children of a
+    source node without children returns NULL at once (as the C code skips it). -/
 def listLoop (s : Store) : Nat → Option Nat → Option Nat → Option Nat → Res (Store × Option Nat)
   | _, none, first, _ => .ok (s, first)
   | 0, some _, _, _ => .fault
   | f + 1, some src, first, last => do
     let sn ← s.get src
     let r ← nodeClone s src
-    let cpy := r.2
-    let s1 ← match last with
-      | none => pure r.1
-      | some l => gnodeAfter r.1 (some l) cpy
-    let first' := if last.isNone then some cpy else first
-    let s2 ← match sn.children with
-      | none => pure s1
-      | some c => do
-        let k ← listLoop s1 f (some c) none none
-        let s' ← k.1.modify cpy fun x => { x with children := k.2 }
-        setParents s' cpy s'.fuel k.2
-    listLoop s2 f sn.next first' (some cpy)
+    let s1 ← linkLast r.1 last r.2
+    let k ← listLoop s1 f sn.children none none
+    let s2 ← attachKids k.1 r.2 k.2
+    listLoop s2 f sn.next (if last.isNone then some r.2 else first) (some r.2)
 
 /-- `mpt_list_clone(src)`: returns the first copy -/
 def listClone (s : Store) (f : Nat) (src : Option Nat) : Res (Store × Option Nat) :=
@@ -310,13 +317,9 @@ def listClone (s : Store) (f : Nat) (src : Option Nat) : Res (Store × Option Na
 def treeClone (s : Store) (src : Nat) : Res (Store × Nat) := do
   let sn ← s.get src
   let r ← nodeClone s src
-  match sn.children with
-  | none => pure r
-  | some c => do
-    let k ← listClone r.1 r.1.fuel (some c)
-    let s' ← k.1.modify r.2 fun x => { x with children := k.2 }
-    let s'' ← setParents s' r.2 s'.fuel k.2
-    pure (s'', r.2)
+  let k ← listClone r.1 r.1.fuel sn.children
+  let s2 ← attachKids k.1 r.2 k.2
+  pure (s2, r.2)
 
 /-! ### node_move.c -/
 
